@@ -101,7 +101,8 @@ def parse_cases(output):
 
 class Job:
     def __init__(self, name, consts, invariants=None, expect=None, cases=False,
-                 sim=None, depth=None, workers=2, heap='3g', role='client'):
+                 sim=None, depth=None, workers=2, heap='3g', role='client',
+                 jvm=None):
         self.name = name
         self.consts = consts
         self.invariants = INVS if invariants is None else invariants
@@ -112,6 +113,7 @@ class Job:
         self.workers = workers
         self.heap = heap
         self.role = role
+        self.jvm = jvm
         self.res = None
         self.case_list = []
 
@@ -130,7 +132,7 @@ class Job:
                       seed=seed * 131 + 17, deadlock=False)
         try:
             self.res = tlc.run(SPEC, 'Process', cfg, tag, workers=self.workers,
-                               timeout=1500, java_heap=self.heap, env=JVM, **kw)
+                               timeout=1500, java_heap=self.heap, env=self.jvm, **kw)
         finally:
             tlc.cleanup(tag)
             try:
@@ -148,90 +150,105 @@ class Job:
 def jobs_for(tier):
     q = tier == 'quick'
     J = []
-    # ---- exhaustive design checks that also print the cases ----
-    J.append(Job('cB1', S(MaxN=3, TKinds='{"stream", "file", "none"}',
-                          MaxCollect=1, WithExit='FALSE' if q else 'TRUE'),
-                 cases=True, workers=4))
-    J.append(Job('cB2', S(InDT='{"x", "y"}', MaxN=2, MaxRedirB=2,
-                          TKinds='{"stream", "merge", "null", "file"}',
-                          RESet='{TRUE}' if q else '{TRUE, FALSE}',
-                          MaxAllowOps=1 if q else 2, MaxCollect=0,
-                          WithWait='TRUE', WithExit='TRUE'),
-                 cases=True, workers=4))
-    J.append(Job('cB3', S(MaxN=2, TKinds='{"stream", "file"}', MaxRedirB=1,
-                          WithBClose='TRUE', RESet='{TRUE}', MaxCollect=1,
-                          MaxAllowOps=2, Allows='{0, 1, 9}'),
-                 cases=True, workers=3))
-    J.append(Job('cC1', S(HasB='FALSE', HasC='TRUE', MaxN=2 if q else 3,
-                          FileLens='{0, 2, 5}', WithDrain='TRUE',
-                          WithKClose='TRUE', WithCClose='TRUE',
-                          StaleFeed='TRUE'),
-                 cases=True, workers=4))
-    J.append(Job('sB1', S(MaxN=3, MaxCollect=0, WithWait='FALSE',
-                          WithExit='FALSE'),
-                 cases=True, workers=3, role='server'))
-    J.append(Job('sC1', S(HasB='FALSE', HasC='TRUE', OutDT='{"x", "y"}',
-                          MaxN=2, SKinds='{"stream", "file", "none"}',
-                          FileLens='{0, 5}' if q else '{0, 2, 5}',
-                          WithDrain='TRUE', WithKClose='TRUE',
-                          MaxRedirC=2, SESet='{FALSE}' if q else '{TRUE, FALSE}'),
-                 cases=True, workers=4, role='server'))
     JO = dict(HasB='TRUE', HasC='TRUE', MaxAllowOps=0, MaxCollect=0,
               WithExit='FALSE', WithWait='FALSE', W1=1, W2=1, CH=1, CL=0)
+    # ---- exhaustive design checks that also print the cases ----
+    J.append(Job('cB1', S(MaxN=3, TKinds='{"stream", "file", "none"}',
+                          MaxCollect=0 if q else 1,
+                          RESet='{TRUE}' if q else '{TRUE, FALSE}',
+                          WithExit='FALSE' if q else 'TRUE'),
+                 cases=True, workers=3 if q else 4))
+    J.append(Job('cB2', S(InDT='{"x", "y"}', MaxN=1 if q else 2, MaxRedirB=2,
+                          TKinds='{"stream", "merge", "null", "file"}',
+                          RESet='{TRUE}' if q else '{TRUE, FALSE}',
+                          MaxAllowOps=1 if q else 2, MaxCollect=0 if q else 1,
+                          W1=1 if q else 2, QH=1 if q else 2, QL=1 if q else 2,
+                          WithWait='TRUE', WithExit='TRUE'),
+                 cases=True, workers=3 if q else 6, heap='3g' if q else '6g'))
+    J.append(Job('cB3', S(MaxN=2, TKinds='{"stream", "file"}', MaxRedirB=1,
+                          WithBClose='TRUE', RESet='{TRUE}',
+                          MaxCollect=0 if q else 1,
+                          MaxAllowOps=1 if q else 2,
+                          Allows='{0, 9}' if q else '{0, 1, 9}',
+                          WithExit='FALSE' if q else 'TRUE'),
+                 cases=True, workers=2))
+    J.append(Job('cC1', S(HasB='FALSE', HasC='TRUE', MaxN=2 if q else 3,
+                          FileLens='{0, 5}' if q else '{0, 2, 5}',
+                          WithDrain='TRUE', WithKClose='TRUE', WithCClose='TRUE',
+                          StaleFeed='TRUE'),
+                 cases=True, workers=3 if q else 4))
+    J.append(Job('sB1', S(MaxN=3, MaxCollect=0, WithWait='FALSE',
+                          WithExit='FALSE',
+                          RESet='{FALSE}' if q else '{TRUE, FALSE}',
+                          TKinds='{"stream", "file", "null", "none"}'),
+                 cases=True, workers=3, role='server'))
+    J.append(Job('sC1', S(HasB='FALSE', HasC='TRUE', OutDT='{"x", "y"}',
+                          MaxN=2, SKinds='{"stream", "file"}' if q else
+                          '{"stream", "file", "none"}',
+                          FileLens='{5}' if q else '{0, 2, 5}',
+                          WithDrain='TRUE', WithKClose='TRUE', MaxRedirC=2,
+                          SESet='{FALSE}' if q else '{TRUE, FALSE}'),
+                 cases=True, workers=3 if q else 4, role='server'))
     J.append(Job('jA', S(**dict(JO, MaxN=3, TKinds='{"proc", "none"}',
                                 SKinds='{"none"}', MaxRedirC=0)),
-                 cases=True, workers=3))
-    J.append(Job('jB', S(**dict(JO, InDT='{"x", "y"}', MaxN=2,
-                                TKinds='{"proc", "merge"}', SKinds='{"none"}',
-                                MaxRedirC=0, RESet='{TRUE}', SESet='{TRUE}')),
-                 cases=True, workers=3))
+                 cases=True, workers=2))
     J.append(Job('jD', S(**dict(JO, MaxN=2, TKinds='{"proc", "stream"}',
                                 SKinds='{"none"}', MaxRedirC=0, RESet='{TRUE}',
                                 SESet='{TRUE}', MaxAllowOps=2, WithWait='TRUE',
                                 MaxCollect=1, W1=2)),
-                 cases=True, workers=3))
+                 cases=True, workers=2))
     J.append(Job('jE', S(**dict(JO, MaxN=2, TKinds='{"proc"}',
-                                SKinds='{"stream", "file"}', MaxRedirB=1,
+                                SKinds='{"stream"}' if q else
+                                '{"stream", "file"}', MaxRedirB=1,
                                 MaxRedirC=1, RESet='{TRUE}',
-                                SESet='{TRUE, FALSE}', FileLens='{2}',
-                                WithKClose='TRUE', OneAtATime='TRUE')),
-                 cases=True, workers=4))
-    J.append(Job('jS', S(**dict(JO, MaxN=3, TKinds='{"proc", "none"}',
-                                SKinds='{"none"}', MaxRedirC=0, OutDT='{"x", "y"}',
-                                RESet='{TRUE}', SESet='{TRUE, FALSE}')),
-                 cases=True, workers=3, role='server'))
+                                SESet='{TRUE}' if q else '{TRUE, FALSE}',
+                                FileLens='{2}', WithKClose='TRUE',
+                                OneAtATime='TRUE')),
+                 cases=True, workers=3 if q else 4))
     if not q:
+        J.append(Job('jB', S(**dict(JO, InDT='{"x", "y"}', MaxN=2,
+                                    TKinds='{"proc", "merge"}',
+                                    SKinds='{"none"}', MaxRedirC=0,
+                                    RESet='{TRUE}', SESet='{TRUE}')),
+                     cases=True, workers=3))
+        J.append(Job('jS', S(**dict(JO, MaxN=3, TKinds='{"proc", "none"}',
+                                    SKinds='{"none"}', MaxRedirC=0,
+                                    OutDT='{"x", "y"}', RESet='{TRUE}',
+                                    SESet='{TRUE, FALSE}')),
+                     cases=True, workers=3, role='server'))
         J.append(Job('jC', S(**dict(JO, InDT='{"x", "y"}', MaxN=2,
                                     TKinds='{"proc"}', SKinds='{"stream"}',
                                     MaxRedirB=2, MaxRedirC=1, RESet='{FALSE}',
                                     SESet='{FALSE}', OneAtATime='TRUE')),
                      cases=True, workers=6, heap='6g'))
-        J.append(Job('cB4', S(InDT='{"x"}', MaxN=3, MaxRedirB=2, MaxAllowOps=3,
-                              Allows='{0, 1, 9}', TKinds='{"stream", "file", "null", "none"}'),
+        J.append(Job('cB4', S(MaxN=3, MaxRedirB=2, MaxAllowOps=3,
+                              Allows='{0, 1, 9}'),
                      cases=True, workers=6, heap='6g'))
     # ---- simulation: long behaviours, the real queue water marks ----
-    n = 120 if q else 1500
+    n = 40 if q else 1500
     J.append(Job('simB', S(MaxN=24, W1=4, QH=16, QL=8, MinEmit=20,
                            TKinds='{"stream", "file", "none"}', MaxRedirB=2,
-                           MaxAllowOps=4, Allows='{0, 2, 9}', PrintAt=90),
-                 cases=True, sim=n, depth=95, workers=1))
-    J.append(Job('simB2', S(InDT='{"x", "y"}', MaxN=6, W1=3, QH=3, QL=2,
-                            MinEmit=8, MaxRedirB=3, MaxAllowOps=4,
-                            TKinds='{"stream", "file", "merge", "null", "none"}',
-                            Allows='{0, 1, 9}', MaxCollect=2, PrintAt=60),
-                 cases=True, sim=n, depth=65, workers=1))
+                           MaxAllowOps=4, Allows='{0, 2, 9}', PrintAt=48),
+                 cases=True, sim=n, depth=52, workers=1))
     J.append(Job('simC', S(HasB='FALSE', HasC='TRUE', OutDT='{"x", "y"}',
                            MaxN=6, W2=3, CH=3, CL=1, FileLens='{0, 3, 9}',
                            MaxRedirC=3, SESet='{FALSE}', WithDrain='TRUE',
                            WithKClose='TRUE', SKinds='{"stream", "file", "none"}',
-                           PrintAt=50),
-                 cases=True, sim=n, depth=55, workers=1, role='server'))
-    J.append(Job('simJ', S(HasC='TRUE', InDT='{"x", "y"}', MaxN=5, W1=2, W2=2,
-                           CH=2, CL=1, MinEmit=6, MaxRedirB=3, MaxRedirC=1,
-                           TKinds='{"proc", "stream", "merge", "none"}',
-                           SKinds='{"stream", "none"}', MaxAllowOps=2,
-                           MaxCollect=1, WithKClose='FALSE', PrintAt=60),
-                 cases=True, sim=n, depth=65, workers=1))
+                           PrintAt=30),
+                 cases=True, sim=n, depth=34, workers=1, role='server'))
+    if not q:
+        J.append(Job('simB2', S(InDT='{"x", "y"}', MaxN=6, W1=3, QH=3, QL=2,
+                                MinEmit=8, MaxRedirB=3, MaxAllowOps=4,
+                                TKinds='{"stream", "file", "merge", "null", "none"}',
+                                Allows='{0, 1, 9}', MaxCollect=2, PrintAt=40),
+                     cases=True, sim=n, depth=44, workers=1))
+        J.append(Job('simJ', S(HasC='TRUE', InDT='{"x", "y"}', MaxN=5, W1=2,
+                               W2=2, CH=2, CL=1, MinEmit=6, MaxRedirB=3,
+                               MaxRedirC=1,
+                               TKinds='{"proc", "stream", "merge", "none"}',
+                               SKinds='{"stream", "none"}', MaxAllowOps=2,
+                               MaxCollect=1, PrintAt=40),
+                     cases=True, sim=n, depth=44, workers=1))
     # ---- sensitivity: wrong rules / the rules of the pinned tree ----
     sb = dict(MaxN=3, MaxRedirB=2, MaxAllowOps=2, WithExit='FALSE',
               TKinds='{"stream", "file"}')
@@ -239,39 +256,45 @@ def jobs_for(tier):
               SKinds='{"stream", "file"}', StaleFeed='TRUE', WithDrain='TRUE',
               WithKClose='TRUE')
     sj = dict(JO, MaxN=2, TKinds='{"proc"}', SKinds='{"none"}', MaxRedirC=0)
-    for name, kw, inv in [
-            ('pinned_clear_writer', dict(sb, FixCW='FALSE'), 'NoWriteAfterEof'),
-            ('pinned_closed_resume', dict(sb, FixCR='FALSE', QH=3, QL=3), 'NoBad'),
-            ('pinned_reader_close', dict(sc, FixRC='FALSE'), 'NoBad'),
-            ('pinned_double_feed', dict(sc, FixSF='FALSE'), 'NoBad'),
-            ('pinned_drain_close', dict(sc, FixDC='FALSE'), 'WaitersResolve'),
-            ('pinned_resume_order',
-             dict(sc, FixRO='FALSE', SKinds='{"file"}', FileLens='{8}',
-                  SESet='{FALSE}', WithDrain='FALSE', WithKClose='FALSE'), 'NoBad'),
-            ('pinned_late_eof', dict(sj, FixLE='FALSE', RESet='{FALSE}'), 'NoBad'),
-            ('pinned_link_order',
-             dict(JO, FixLO='FALSE', InDT='{"x", "y"}', MaxN=2, TKinds='{"proc"}',
-                  SKinds='{"stream"}', MaxRedirB=2, MaxRedirC=1, WithWait='TRUE',
-                  RESet='{FALSE}', SESet='{FALSE}', OneAtATime='TRUE'),
-             'ExactlyOnce'),
-            ('drop_on_redirect', dict(sb, DropOnRedirect='TRUE'), 'ExactlyOnce'),
-            ('eof_always', dict(sc, EofAlways='TRUE'), 'EofRule'),
-            ('resume_no_flush', dict(sb, ResumeNoFlush='TRUE'), 'NoStuck'),
-            ('no_pause', dict(sb, NoPause='TRUE', MaxN=5, W1=1, QH=1, QL=1,
-                              MaxRedirB=1, MaxCollect=0, WithWait='FALSE'),
-             'Bounded'),
-            ('exit_early', dict(sb, ExitEarly='TRUE'), 'ExitAfterOutput')]:
-        J.append(Job('sens_' + name, S(**kw), [inv] if name == 'pinned_link_order'
-                     else None, expect=inv, workers=4 if 'link' in name else 2))
+    sens = [
+        ('pinned_clear_writer', dict(sb, FixCW='FALSE'), 'NoWriteAfterEof'),
+        ('pinned_closed_resume',
+         dict(sb, FixCR='FALSE', TKinds='{"stream"}', RESet='{TRUE}',
+              MaxCollect=0, WithWait='FALSE'), 'NoBad'),
+        ('pinned_reader_close', dict(sc, FixRC='FALSE'), 'NoBad'),
+        ('pinned_double_feed', dict(sc, FixSF='FALSE'), 'NoBad'),
+        ('pinned_drain_close', dict(sc, FixDC='FALSE'), 'WaitersResolve'),
+        ('pinned_resume_order',
+         dict(sc, FixRO='FALSE', SKinds='{"file"}', FileLens='{8}',
+              SESet='{FALSE}', WithDrain='FALSE', WithKClose='FALSE'), 'NoBad'),
+        ('pinned_late_eof', dict(sj, FixLE='FALSE', RESet='{FALSE}'), 'NoBad'),
+        ('pinned_link_order',
+         dict(JO, FixLO='FALSE', InDT='{"x", "y"}', MaxN=2, TKinds='{"proc"}',
+              SKinds='{"none"}', MaxRedirB=2, MaxRedirC=0, RESet='{FALSE}',
+              SESet='{FALSE}', OneAtATime='TRUE', CH=0, W1=2, MinEmit=9),
+         'ExactlyOnce'),
+        ('drop_on_redirect', dict(sb, DropOnRedirect='TRUE'), 'ExactlyOnce'),
+        ('eof_always', dict(sc, EofAlways='TRUE'), 'EofRule'),
+        ('resume_no_flush', dict(sb, ResumeNoFlush='TRUE'), 'NoStuck'),
+        ('no_pause', dict(sb, NoPause='TRUE', MaxN=5, W1=1, QH=1, QL=1,
+                          MaxRedirB=1, MaxCollect=0, WithWait='FALSE'),
+         'Bounded'),
+        ('exit_early', dict(sb, ExitEarly='TRUE'), 'ExitAfterOutput')]
+    for name, kw, inv in sens:
+        J.append(Job('sens_' + name, S(**kw),
+                     [inv] if name == 'pinned_link_order' else None,
+                     expect=inv, workers=2, jvm=JVM))
     # ---- vacuity witnesses ----
-    for name, kw, inv in [
-            ('paused_writer', sb, 'NeverPausedWriter'),
-            ('parked', sb, 'NeverParked'),
-            ('wait_done', dict(sb, WithExit='TRUE'), 'NeverWaitDone'),
+    wits = [('paused_writer', sb, 'NeverPausedWriter'),
             ('write_paused', sc, 'NeverWritePaused'),
-            ('drain_ret', sc, 'NeverDrainRet'),
-            ('piped', sj, 'NeverPiped')]:
-        J.append(Job('wit_' + name, S(**kw), [inv], expect=inv, workers=2))
+            ('piped', sj, 'NeverPiped')]
+    if not q:
+        wits += [('parked', sb, 'NeverParked'),
+                 ('wait_done', dict(sb, WithExit='TRUE'), 'NeverWaitDone'),
+                 ('drain_ret', sc, 'NeverDrainRet')]
+    for name, kw, inv in wits:
+        J.append(Job('wit_' + name, S(**kw), [inv], expect=inv, workers=2,
+                     jvm=JVM))
     return J
 
 
@@ -506,7 +529,7 @@ def main(ctx):
                 res.ok = True
             ctx.require_tlc_ok(f'Process {j.name} (design check + cases) '
                                f'{j.consts}', res)
-            ctx.require(len(j.case_list) > 20,
+            ctx.require(len(j.case_list) > (20 if not j.sim else 5),
                         f'{j.name}: only {len(j.case_list)} cases\n' +
                         res.output[-1500:])
             seen = set()
